@@ -98,12 +98,19 @@ def corpus_modules(ctx, sub, what, flagsets=(None,), textures=True, known=None):
                 runs += 1
                 bad += ["%s%s: %s" % (os.path.relpath(m, common.VERIF), " flags %r" % flags if flags else "", x) for x in b]
                 if textures:
-                    r, b = check_markers_textured(m, scratch, flags=flags)
+                    kinds = None
+                    if os.path.exists(os.path.join(m, "SKIP_TEXTURES.json")):
+                        # {"<kind>": "<the listed finding that texture runs into on this module>"}
+                        import json
+                        from . import texture
+                        skip = json.load(open(os.path.join(m, "SKIP_TEXTURES.json")))
+                        kinds = [k for k in texture.TEXTURES if k not in skip]
+                    r, b = check_markers_textured(m, scratch, flags=flags, kinds=kinds)
                     runs += r
                     bad += ["%s%s: %s" % (os.path.relpath(m, common.VERIF), " flags %r" % flags if flags else "", x) for x in b]
     finally:
         shutil.rmtree(scratch, ignore_errors=True)
-    ctx.obligation("whole tool on corpus/%s (%s): %d marked lines in %d module(s), %d runs incl. the textures blank-first-line / %%-in-file-name / //line directive / CRLF: every //REPORT line is reported, no //SILENT line is" % (sub, what, total, len(mods), runs), total > 0 and not bad)
+    ctx.obligation("whole tool on corpus/%s (%s): %d marked lines in %d module(s), %d runs incl. the textures blank-first-line / %%-in-file-name / //line directive / CRLF / redundant parentheses: every //REPORT line is reported, no //SILENT line is" % (sub, what, total, len(mods), runs), total > 0 and not bad)
     for b in bad[:3]:
         ctx.violation("corpus-" + sub.replace("/", "-"), "%s fails on the real tool: %s\nreplay: bin/harness analyze -dir <module> (textures: checks/texture.py)\n" % (ctx.pid, b))
     return total, bad
